@@ -30,6 +30,9 @@ SCHEMAS = {
     # pq.read_schema() or mirrored from a database table has them
     'required': lambda: pa.schema([pa.field('i', pa.int64(), nullable=False), pa.field('s', pa.string(), metadata={'origin': 'db'}),
                                    pa.field('f', pa.float64())], metadata={'table': 't'}),
+    # column names that are also attribute names of the row's own type (dict.values, .items, .keys, .get, .copy ...)
+    'dictattr': lambda: pa.schema([('i', pa.int64()), ('values', pa.list_(pa.int64())), ('items', pa.string()), ('keys', pa.float64()), ('get', pa.int64()),
+                                   ('copy', pa.string())]),
 }
 
 
@@ -41,6 +44,9 @@ def build_rows(spec):
         if spec['schema'] != 'single':
             row['s'] = r.choice(['', 'a', 'row%d' % k, '€\U0001f600', None, 'x' * r.randint(0, 30)])
             row['f'] = r.choice([0.0, -1.5, k / 3, 1e300, None, r.uniform(-1e3, 1e3)])
+        if spec['schema'] == 'dictattr':
+            row = {'i': row['i'], 'values': r.choice([[], [k], [k, None, -k], None]), 'items': row['s'], 'keys': row['f'], 'get': k % 7 if k % 5 else None,
+                   'copy': 'c%d' % k}
         if spec['schema'] == 'nested':
             row['st'] = r.choice([{'a': k % 1000, 'b': 'b%d' % k}, {'a': None, 'b': None}, None])
             row['l'] = r.choice([[], [k], [k, None, -k], None])
@@ -80,7 +86,7 @@ class C20(Check):
     ASSUMPTIONS = ['pyarrow is trusted as parquet codec and as the independent reader']
     ANCHORS = ['rxsci/container/parquet.py', 'rxsci/data/batch.py']
     REQUIRED_TAGS = ['none', 'snappy', 'gzip', 'zstd', 'rows=0', 'rows<b', 'rows=b', 'rows=kb', 'rows%b!=0', 'path', 'fileobj',
-                     'nested', 'required', 'row_group', 'rows-with-mixed_order', 'rows-with-mixed_extra', 'rows-with-reversed', 'pushed-source', 'after-a-failed-dump', 'numpy-typed-batch-size']
+                     'nested', 'required', 'dictattr', 'row_group', 'rows-with-mixed_order', 'rows-with-mixed_extra', 'rows-with-reversed', 'pushed-source', 'after-a-failed-dump', 'numpy-typed-batch-size']
     REQUIRED_OBSERVED = ['rows_compared_rxsci_reader', 'rows_compared_pyarrow_reader']
 
     def __init__(self):
@@ -108,7 +114,7 @@ class C20(Check):
             yield {'rows': rows, 'batch': b,
                    'load_batches': sorted({1 if rows <= 400 else 17, rng.randint(1, 2000), max(1, b)}),
                    'row_group_size': rng.choice([None, None, 1, 5, 100]),
-                   'compression': comps[k % 4], 'schema': ['flat', 'nested', 'single', 'required'][(k // 4) % 4],
+                   'compression': comps[k % 4], 'schema': ['flat', 'nested', 'single', 'required', 'dictattr'][(k // 4) % 5],
                    'target': 'path' if k % 5 else 'fileobj', 'rseed': rng.randrange(1 << 30),
                    'rowform': ['uniform', 'mixed_order', 'uniform', 'mixed_extra', 'reversed'][(k // 2) % 5]}
 
